@@ -173,6 +173,10 @@ CORRS = [
     Corr("ser.compose", c03_compose.gen_compose, c03_compose.impl_compose, compare=c03_compose.cmp_compose,
          classify=c03_compose.classify_compose,
          describe="XmlSerializer(writer=XmlEventWriter).render on real class universes vs Bind/Gen ∘ Xml/Writer (exact text)"),
+    Corr("ser.hyps", c03_compose.gen_compose, c03_compose.impl_hyps, compare=c03_compose.cmp_compose,
+         classify=c03_compose.classify_hyps,
+         describe="hypotheses eventsOK/eventsPlain/userMapOK of serialize_*_partial: Lean on the model's events vs an independent "
+                  "transcription evaluated on the REAL generator's events"),
     Corr("ns.clean", gen_clean, impl_clean, describe="clean_prefixes"),
     Corr("xml.split_qname", gen_split, impl_split, describe="split_qname"),
     Corr("ns.load_prefix", gen_prefix, impl_load_prefix, describe="load_prefix"),
